@@ -550,6 +550,12 @@ def silence_case(driver, seed, i, res):
 def run_shard(desc, tier, seed):
     res = Result()
     simlib.import_all()
+    _drv = desc.get("driver")
+    if _drv in simlib.DRIVERS and "replay" not in desc:
+        why = simlib.probe_attach(_drv)
+        if why:
+            res.inconclusive.append(why)
+            return res
     if "replay" in desc:
         for d in plan("quick", seed):
             r2 = run_shard(d, "quick", seed)
